@@ -8,6 +8,7 @@ From SV Require Import Model.WireIpv4 Proofs.WireIpv4Proofs.
 From SV Require Import Model.WireIpv6 Proofs.WireIpv6Proofs.
 From SV Require Import Model.WireIcmpv4 Proofs.WireIcmpv4Proofs.
 From SV Require Import Model.WireIcmpv6 Proofs.WireIcmpv6Proofs.
+From SV Require Import Model.WireTcp Proofs.WireTcpProofs.
 From SV Require Import Props.C07.
 
 Check (C07_eth_accessors_safe : forall bs,
@@ -73,3 +74,30 @@ Check (C07_icmpv6_accessors_safe : forall (sum_ok : list Z -> bool) (sum_fill : 
 
 Check (C07_icmpv6_parse_total : forall sum_ok (sum_fill : list Z -> Z) rx bs,
   bytes_ok bs = true -> icmpv6_parse sum_ok rx bs <> Panic).
+
+Check (C07_tcp_option_parse_total : forall buf,
+  bytes_ok buf = true ->
+  tcp_option_parse buf <> Panic /\
+  forall rest o, tcp_option_parse buf = Ok (rest, o) ->
+    (length rest < length buf)%nat /\ bytes_ok rest = true).
+
+Check (C07_tcp_walk_terminates : forall (A : Type) (step : A -> tcp_option -> A * bool) fuel opts acc,
+  bytes_ok opts = true -> (length opts <= fuel)%nat -> tcp_walk step fuel opts acc <> Panic).
+
+Check (C07_tcp_walk_fuel_suffices : forall (A : Type) (step : A -> tcp_option -> A * bool) f1 f2 opts acc,
+  bytes_ok opts = true -> (length opts <= f1)%nat -> (length opts <= f2)%nat ->
+  tcp_walk step f1 opts acc = tcp_walk step f2 opts acc).
+
+Check (C07_tcp_accessors_safe : forall (sum_ok : list Z -> bool) (sum_fill : list Z -> Z) bs,
+  bytes_ok bs = true -> tcp_check_len bs = Ok tt ->
+  tcp_src_port bs <> Panic /\ tcp_dst_port bs <> Panic /\ tcp_seq_number bs <> Panic /\
+  tcp_ack_number bs <> Panic /\ tcp_fin bs <> Panic /\ tcp_syn bs <> Panic /\ tcp_rst bs <> Panic /\
+  tcp_psh bs <> Panic /\ tcp_ack_ bs <> Panic /\ tcp_urg bs <> Panic /\ tcp_ece bs <> Panic /\
+  tcp_cwr bs <> Panic /\ tcp_ns bs <> Panic /\ tcp_header_len_ bs <> Panic /\
+  tcp_window_len bs <> Panic /\ tcp_checksum bs <> Panic /\ tcp_urgent_at bs <> Panic /\
+  tcp_options bs <> Panic /\ tcp_payload_ bs <> Panic /\ tcp_segment_len bs <> Panic /\
+  tcp_options_summary bs <> Panic /\ tcp_selective_ack_permitted bs <> Panic /\
+  tcp_selective_ack_ranges bs <> Panic).
+
+Check (C07_tcp_parse_total : forall sum_ok (sum_fill : list Z -> Z) rx bs,
+  bytes_ok bs = true -> tcp_parse sum_ok rx bs <> Panic).
